@@ -4,6 +4,7 @@ package c17
 import (
 	"fmt"
 	"math"
+	"os"
 	"strings"
 
 	"github.com/tdewolff/canvas/text"
@@ -77,6 +78,7 @@ func baseAlphabet() []token {
 		{glue(1, 2, 1)},
 		{glue(0, 2, 0)},
 		{pen(0, inf, false)},
+		{pen(0, -50, false)}, // not in DESIGN's alphabet; added so that the negative-penalty branch of the demerits formula is exercised
 	}
 }
 
@@ -323,7 +325,7 @@ func CheckOne(r *fw.R, items []oracle.KPItem, width float64) {
 		case !ev.Feasible:
 			viol("not-feasible-though-feasible-exists", "returned %v (ratios %s, ok=%v) but %v keeps every ratio in [-1,%g] (demerits %g); %d of %d breakings feasible",
 				pos, ratios(ev), ok, all.BestBreaks, p.Tolerance, all.MinDemerits, all.Feasible, all.Breakings)
-		case ev.Demerits > all.MinDemerits*(1+1e-6)+1e-9:
+		case ev.Demerits-all.MinDemerits > 1e-6*math.Max(1, math.Abs(all.MinDemerits)): // demerits can be negative (negative penalties)
 			viol("not-optimal", "returned %v has demerits %.9g (ratios %s) but %v has %.9g", pos, ev.Demerits, ratios(ev), all.BestBreaks, all.MinDemerits)
 		default:
 			if all.Feasible > 1 {
@@ -446,17 +448,103 @@ func unterminatedFamily(alpha []token, maxLen int) fw.Family {
 	}
 }
 
+// tunables: the statement quantifies over the package's configuration too ("with the package's
+// tunables"); large flagged/fitness demerits make those terms decide small cases.
+type tunables struct{ tol, line, flagged, fitness float64 }
+
+func withTunables(f fw.Family, t tunables) fw.Family {
+	var old tunables
+	f.Name += fmt.Sprintf(" [Tolerance=%g DemeritsLine=%g DemeritsFlagged=%g DemeritsFitness=%g]", t.tol, t.line, t.flagged, t.fitness)
+	f.Setup = func() {
+		old = tunables{text.Tolerance, text.DemeritsLine, text.DemeritsFlagged, text.DemeritsFitness}
+		text.Tolerance, text.DemeritsLine, text.DemeritsFlagged, text.DemeritsFitness = t.tol, t.line, t.flagged, t.fitness
+	}
+	f.Teardown = func() {
+		text.Tolerance, text.DemeritsLine, text.DemeritsFlagged, text.DemeritsFitness = old.tol, old.line, old.flagged, old.fitness
+	}
+	return f
+}
+
+// word paragraphs: n words separated by one kind of glue, words optionally hyphenated, an
+// optional forced break; longer paragraphs (up to 7 lines) than the free alphabets reach.
+func wordFamily(maxWords int) fw.Family {
+	words := []token{
+		{box(1)},
+		{box(2)},
+		{box(3)},
+		{box(1), pen(1, 50, true), box(1)},
+		{box(2), pen(0, 50, true), box(1)},
+	}
+	glues := []oracle.KPItem{glue(1, 1, 1), glue(1, 2, 1), glue(1, 1, 0), glue(2, 1, 1)}
+	nw := seqCount(len(words), maxWords)
+	build := func(i int64) []oracle.KPItem {
+		g := glues[i%int64(len(glues))]
+		i /= int64(len(glues))
+		// decode the word string
+		k := int64(len(words))
+		l, p := 0, int64(1)
+		for i >= p {
+			i -= p
+			p *= k
+			l++
+		}
+		digits := make([]int, l)
+		for j := l - 1; j >= 0; j-- {
+			digits[j] = int(i % k)
+			i /= k
+		}
+		var items []oracle.KPItem
+		for j, d := range digits {
+			if j > 0 {
+				items = append(items, g)
+			}
+			items = append(items, words[d]...)
+		}
+		return append(items, finishing()...)
+	}
+	return fw.Family{
+		Name: "word-paragraphs+finish", N: nw * int64(len(glues)),
+		Check: func(i int64, r *fw.R) {
+			items := build(i)
+			r.NontrivialIdx()
+			for _, w := range widths {
+				CheckOne(r, items, w)
+			}
+			r.Count("sequence_x_width", int64(len(widths)))
+		},
+		Desc: func(i int64) string {
+			items := build(i)
+			return FmtItems(items) + " features=" + features(items, Params())
+		},
+	}
+}
+
 func families(tier string) []fw.Family {
 	n, m, d := 5, 3, 6
 	if tier == "thorough" {
 		n, m, d = 6, 5, 8
 	}
-	return []fw.Family{
+	fs := []fw.Family{
 		seqFamily("base-alphabet+finish", baseAlphabet(), n),
 		seqFamily("alignment-macros+finish", macroAlphabet(), m),
 		seqFamily("reduced-alphabet-long+finish", reducedAlphabet(), d),
+		withTunables(seqFamily("reduced-alphabet-long+finish", reducedAlphabet(), d-1), tunables{1, 1, 10000, 10000}),
+		withTunables(seqFamily("reduced-alphabet-long+finish", reducedAlphabet(), d-1), tunables{3, 10, 3000, 300}),
+		wordFamily(d),
+		withTunables(wordFamily(d-1), tunables{1, 1, 10000, 10000}),
 		unterminatedFamily(baseAlphabet(), 4),
 	}
+	// development aid: C17_ONLY=<substring> restricts the run to the matching families
+	if only := os.Getenv("C17_ONLY"); only != "" {
+		var sel []fw.Family
+		for _, f := range fs {
+			if strings.Contains(f.Name, only) {
+				sel = append(sel, f)
+			}
+		}
+		return sel
+	}
+	return fs
 }
 
 func hasFeature(f string) func(v *fw.Violation) bool {
@@ -479,7 +567,7 @@ func Prop() *fw.Property {
 	return &fw.Property{
 		ID:    "C17",
 		Level: "exploration",
-		Rule: "every item sequence of length <= 5 (quick) / 6 (thorough) over {Box 1/2/3, Glue(1;y in 0,1,2;z in 0,1), Glue(0,2,0), Penalty 0, Penalty(w=1,50,flagged), Penalty -inf, Penalty +inf} " +
+		Rule: "every item sequence of length <= 5 (quick) / 6 (thorough) over {Box 1/2/3, Glue(1;y in 0,1,2;z in 0,1), Glue(0,2,0), Penalty 0, Penalty(w=1,50,flagged), Penalty -inf, Penalty +inf, Penalty -50} " +
 			"every sequence of length <= 6 / 8 over the reduced alphabet {Box 1/2, Glue(1,1,1), Glue(1,2,0), Penalty 0, Penalty(w=1,50,flagged), Penalty -inf}, " +
 			"and every sequence of <= 3 / 5 of the item groups GlyphsToItems emits (spaces, soft hyphens, newlines per alignment), each followed by Glue(0,inf,0)+Penalty(-inf), x widths 2..9, looseness 0; " +
 			"text.Linebreak compared with the brute force over ALL subsets of legal breakpoints that contain every forced break (paper's discard rule, ratio, badness, demerits; package tunables); " +
